@@ -1115,6 +1115,27 @@ def big_compressed_packet(rng, usize):
     return b
 
 
+def exact_packet(rng, size):
+    """An accepted response of exactly `size` bytes (size >= 60): TXT records owned by a pointer to the question."""
+    q = [b"big", b"example"]
+    head = G.wire_name(q) + struct.pack(">HH", 16, 1)
+    R = size - 12 - len(head)
+    lens = []
+    while R > 2 * 268:
+        lens.append(256)
+        R -= 268
+    if R <= 268:
+        lens.append(R - 12)
+    else:
+        lens += [(R - 24) // 2, R - 24 - (R - 24) // 2]
+    body = b""
+    for rl in lens:
+        body += b"\xc0\x0c" + struct.pack(">HHIH", 16, 1, 5, rl) + bytes([rl - 1]) + bytes(rng.randint(97, 122) for _ in range(rl - 1))
+    b = struct.pack(">HHHHHH", 5, 0x8180, 1, len(lens), 0, 0) + head + body
+    assert len(b) == size, (len(b), size)
+    return b
+
+
 class HistProp(Prop):
     """Shared machinery of C08-C11: histories with an abstract message model (gen/hist.py)."""
     clauses = set()
@@ -1242,6 +1263,14 @@ class HistProp(Prop):
                 if ("walk" in self.clauses or "effect" in self.clauses) and not self.match_walk(st.expect_out, o):
                     fails.append(("walk", "%s yielded %s; the abstract walk expects %s" % (
                         what, o[:400], " ".join(str(t) for y in st.expect_out for t in y)[:400])))
+            # --- a walk in which every mutating action reported an error must leave the message as it was
+            if "err" in self.clauses and o.startswith("W[") and a0 is not None:
+                muts = [t for t in o[2:-1].split(" ") if t[:2] in ("M=", "T=", "A=", "X=", "V=")]
+                if muts and all("=ERR" in t for t in muts):
+                    if a1 is None or a1.key() != a0.key():
+                        fails.append(("failed-op-changed-message", "%s: every mutating action of the walk reported an error (%s) but the packet no "
+                                      "longer decodes to the same message" % (what, muts[0])))
+                    self.check_state(fails, "after " + what, v, fp, ca, b1)
             # --- effect on the decoded message
             if is_err or o == "PANIC":
                 if "err" in self.clauses and is_err and a0 is not None:
@@ -1313,7 +1342,7 @@ class HistProp(Prop):
         """Known-finding class: some name of the starting packet is read through the header bytes, the history calls a header setter, and
         the failure is observed at or after that call."""
         ops = case.line.split("\t")
-        setters = [i for i, o in enumerate(ops) if i > 0 and o.split(",")[0] in self.HEADER_SETTERS]
+        setters = [i for i, o in enumerate(ops) if i > 0 and (o[2:] if o.startswith("F,") else o).split(",")[0] in self.HEADER_SETTERS]
         if not ops[0].startswith("P,") or not setters:
             return False
         if op_index is None:
@@ -1349,6 +1378,9 @@ class HistProp(Prop):
     def classify(self, case, why):
         if why.startswith("["):
             return why[1:why.index("]")]
+        if self.header_pointer_case(case, op_index=len(case.line.split("\t"))):
+            # the process aborts in the implementation where the model reaches a Panic site: no line-by-line comparison is possible
+            return "header-pointer"
         return "divergence-unclassified"
 
     def tags(self, case, io):
@@ -1472,7 +1504,7 @@ class C10(HistProp):
     id = "C10"
     clauses = {"err", "size"}
     rule = ("error-provoking histories: second question, malformed record text (field-wise damaged), invalid / over-long / pointer-bearing "
-            "names given to set_raw_name, operations on a deleted record's cursor, renames that overflow 255 bytes, inserts into packets of "
+            "names given to set_raw_name, operations on a deleted record's cursor, single renames / deletions / TTL writes on question-less objects, renames that overflow 255 bytes, inserts into packets of "
             "8100-9500 bytes and >65535 bytes (quick: up to 9500) and into compressed packets of 1-2 KB whose pointer-free form has 7900-9000 bytes, at any point of a history; after every failing call the decoded message "
             "must equal the one before the call and the object must still match a fresh parse; no successful insert may exceed 8192 bytes. "
             "Non-trivial: history contains a failing call; distinct = distinct history.")
@@ -1489,6 +1521,20 @@ class C10(HistProp):
             for _ in range(rng.randint(1, 5)):
                 self.random_step(rng, bld, {"insert-bad": 4, "iq": 3, "rename-overflow": 2, "walk": 6, "insert": 2, "header": 1, "rename": 1})
             cases.append(self.finish(i, first, bld, "errors"))
+        # objects without a question (synthesised empty, or question deleted), then records inserted and renamed / deleted one at a time:
+        # an operation that reports an error here must not have moved any byte
+        k0 = len(cases)
+        for i in range(60 if tier == "quick" else 1500):
+            first, a, flags = self.base(rng, kind=rng.choice(["empty", "parsed", "query"]))
+            bld = H.Builder(rng, a, flags)
+            bld.flags.add("allow-qr-gating")
+            if a.q is not None:
+                bld.question_walk_op("X")
+            for _ in range(rng.randint(1, 2)):
+                bld.insert_op()
+            for _ in range(rng.randint(1, 3)):
+                bld.walk_op(mode="single", si=rng.randrange(3))
+            cases.append(self.finish(k0 + i, first, bld, "no-question"))
         sizes = [8100, 8150, 8180, 8190, 8200, 8500, 9500] if tier == "quick" else [8100, 8150, 8170, 8180, 8185, 8190, 8192, 8200, 8500, 9500, 20000, 66000]
         k = len(cases)
         for sz in sizes:
@@ -1591,6 +1637,30 @@ class C11(HistProp):
                 bld.question_walk_op("read")
                 cases.append(self.finish(k, "P," + hx(b), bld, "delete-question"))
                 k += 1
+        # the question of an object that an earlier operation already brought to pointer-free form (a deletion elsewhere, a rename,
+        # an insertion, in-place decompression), and of synthesised queries
+        for i in range(24 if tier == "quick" else 400):
+            first, a, flags = self.base(rng, kind=rng.choice(["parsed", "parsed", "parsed", "query"]))
+            bld = H.Builder(rng, a, flags)
+            pre = rng.choice(["delete", "rename", "insert", "V", "none"])
+            nonempty = [si for si in range(3) if any(r.t != G.T_OPT for r in bld.a.secs[si])]
+            if pre == "delete" and nonempty:
+                si = rng.choice(nonempty)
+                tags = [id(r) for r in bld.a.secs[si] if r.t != G.T_OPT]
+                bld.walk_op(si=si, mode="delete", incl=False, delete_set={rng.choice(tags)})
+            elif pre == "rename":
+                bld.rename_op()
+            elif pre == "insert":
+                bld.flags.add("allow-qr-gating")
+                bld.insert_op()
+            elif pre == "V" and nonempty:
+                bld.walk_op(si=rng.choice(nonempty), mode="uncompress")
+            bld.question_walk_op("X")
+            bld.question_walk_op("read")
+            for si in range(3):
+                bld.walk_op(si=si, mode="read", incl=True)
+            cases.append(self.finish(k, first, bld, "delete-question-after-" + pre))
+            k += 1
         return cases
 
     def nontrivial(self, case, io):
@@ -1926,11 +1996,18 @@ class C15(HistProp):
                     ops += [fop if fop is not None else st.op, "v", "fp", "ca", "b"]
             ops += ["F,b", "F,g"]
             cases.append(Case("f%d" % i, "\t".join(ops), {"family": "hook-script", "steps": [], "nsteps": len(steps)}))
+        # copy-out of packets around the capacity of the buffer the shipped header gives hooks (8192 bytes), under several stated capacities
+        for size in (8190, 8191, 8192, 8193, 9000):
+            b = exact_packet(rng, size)
+            ops = ["P," + hx(b), "v", "fp", "ca", "b", "F,b"] + ["F,b,%d" % c for c in (8190, 8191, 8192)] + ["F,g", "F,fq"]
+            cases.append(Case("f%d" % len(cases), "\t".join(ops), {"family": "copy-out-capacity", "steps": [], "nsteps": 1}))
         return cases
 
     def oracle(self, case, io):
         w = no_crash(io)
         if w:
+            if self.header_pointer_case(case, op_index=(len(io) - 1) if io else len(case.line.split("\t"))):
+                return "[header-pointer] a header setter rewrote bytes that a name of the packet is read through; afterwards: " + w
             return "[crash] " + w + " (a table call made as the shipped header declares it crashed the process)" if io is None else "[crash] " + w
         ops = case.line.split("\t")
         last_b = None
@@ -1940,14 +2017,20 @@ class C15(HistProp):
                 for bad in ("!wrote", "BADLEN", "NOT-TERMINATED", "=RC", "RC", "ABI-VERSION", "nodesc", "emptydesc", "unterminated", "exceeds-capacity", "BADOP"):
                     if bad in o and not o.startswith("OK:"):
                         return "[buffer] facade op %s: %s" % (op[:60], o[:200])
-                if op == "F,b" and last_b is not None and o != last_b:
-                    return "[facade] raw_packet copy-out differs from the packet: %s vs %s" % (o[:80], last_b[:80])
+                if (op == "F,b" or op.startswith("F,b,")) and last_b is not None and last_b.startswith("b="):
+                    cap = int(op[4:]) if op.startswith("F,b,") else 8192
+                    plen = (len(last_b) - 2) // 2
+                    want = last_b if plen <= cap else "b=TOOBIG"
+                    if o != want:
+                        return "[facade] raw_packet with a stated capacity of %d on a %d-byte packet: got %s, expected %s" % (cap, plen, o[:60], want[:60])
             if op == "b":
                 last_b = o
             if op == "fp" and i >= 1:
                 self.check_state(fails, "after op %d (%s)" % (i - 2, ops[i - 2][:60]), io[i - 1], o, io[i + 1] if i + 1 < len(io) else "ca=-",
                                  io[i + 2][2:] if i + 2 < len(io) and io[i + 2].startswith("b=") else None)
         known = known_classes(self.id)
+        if fails and self.header_pointer_case(case, op_index=len(ops)):
+            return "[header-pointer] a header setter rewrote bytes that a name of the packet is read through; afterwards: [%s] %s" % fails[0]
         for cls, txt in fails:
             if cls not in known and cls not in ("no-question", "qr-gating"):
                 return "[%s] %s" % (cls, txt)
@@ -1983,7 +2066,7 @@ class C16(Prop):
     rule = ("H: barrier-scripted interleavings replayed on real threads: each step is either a failing C-table call on thread t "
             "(raw_name_from_str with four kinds of bad names, add_to_answer with bad text: five distinct messages, chosen so that concurrent "
             "threads never hold the same message) or error_description on thread t; quick: ALL interleavings of 2 threads x 3 steps and a "
-            "random sample of 3-4 thread schedules of 6-14 steps; thorough adds all interleavings of 3 threads x 2 steps and longer random "
+            "random sample of 3-4 thread schedules of 6-14 steps; two schedules with 70 and 140 live threads; thorough adds all interleavings of 3 threads x 2 steps and longer random "
             "ones. The strings read must equal the model's. Non-trivial: at least one read happens after a failure of ANOTHER thread that "
             "followed the reader's own failure; distinct = distinct schedule.")
     strength = ("full statement for the model: for every interleaving of any number of threads each read returns the reader's most recent "
@@ -2025,6 +2108,12 @@ class C16(Prop):
             n = rng.choice([2, 3, 4])
             steps = [rng.randrange(n) for _ in range(rng.randint(6, 14))]
             cases.append(Case("h%d" % k, self.sched(rng, n, steps), {"family": "random-%d" % n}))
+            k += 1
+        # many threads (a bounded table of slots shared round-robin would wrap): thread 0 fails first, N others fail with other messages,
+        # thread 0 reads before and after each of them has read; also N live threads that each fail and read in reverse order
+        for n in ((70, 140) if tier == "quick" else (33, 65, 70, 129, 140, 257, 300)):
+            st = ["0:f0"] + ["%d:f%d" % (t, 1 + t % 4) for t in range(1, n)] + ["0:r"] + ["%d:r" % t for t in range(n - 1, 0, -1)] + ["0:r"]
+            cases.append(Case("h%d" % k, "H,%d,%s" % (n, ".".join(st)), {"family": "many-threads"}))
             k += 1
         return cases
 
